@@ -14,19 +14,26 @@ real translator and compared with *the Python function itself* (the oracle is CP
 executing the very same source) on a grid.
 
 Parts
-  E1  leaf level: every expression / condition of a fixed leaf set (==, !=, chains,
-      IfExp, calls into helper functions of the same module, of imported modules and of
-      a sub-package with positional and keyword arguments, table functions, named
-      constants, names equal to module level floats, things just outside the subset)
-      in a few statement contexts x ALL renamings of the model arguments.
-  E2  statement level: EVERY statement skeleton up to a size bound (assign,
-      reassign of a parameter, tuple assign, return, one statement just outside the
-      subset, if/elif/else nested <= 2 with any of these in any branch, code after an
-      if, chains without else) x a few seeded fillings of the expression slots
-      x renamings.
+  E1  leaf level: every expression / test of a fixed leaf set (==, !=, chains, IfExp,
+      calls into helper functions of the same module, of an imported module and of a
+      sub-package with positional and keyword arguments, defaults, table functions,
+      named constants, names equal to module level floats, things just outside the
+      subset) in a few statement contexts; every statement form (assign, tuple assign,
+      swap, chained, augmented, annotated, loops, try, local imports, ...) in a
+      straight-line body and inside a branch; parameters / locals named like module
+      level floats; x ALL renamings of the model arguments.
+  E2  statement level: EVERY control skeleton up to a size bound (leaves: binding
+      statement / return; if with 1-3 tests and optional else, nesting <= 2, i.e.
+      reassign in a branch, return or assign in any branch, code after if/else, chains
+      without else) x seeded fillings of the statement forms, expressions and tests
+      x rotating renamings.
   E3  the KNOWN_FNS / KNOWN_CONSTANTS tables entry by entry: `fn(<literals>)` and
       `fn(<arguments>)` through the real translator against the Python function, plus
       (informational only) the direct meaning of the table target.
+
+Failure keys: `bounded:<symptom>:<part>:<class>`; the class is the leaf / statement form /
+table entry, for E2 the first syntactic feature of the body in CLASS_ORDER (computed from
+the body's own AST), for renamings the class of the renaming.
 
 Grid: a lattice of dyadic values per argument (all comparisons of sums/differences/
 products of them are exact in binary floating point), every lattice point +/- eps in
@@ -45,7 +52,6 @@ import ast
 import hashlib
 import importlib
 import itertools
-import json
 import math
 import multiprocessing as mp
 import os
@@ -647,6 +653,28 @@ SHADOW_CASES = [
 ]
 
 
+# every statement form in a straight-line body (the skeleton enumeration meets them mostly inside branches)
+STMT_CASES = [
+    ("assign", ["z = a - b", "return z * 2.0"]), ("assign-twice", ["z = a - b", "z = z * b", "return z - a"]), ("reassign-parameter", ["a = a - b", "return a * b"]),
+    ("reassign-parameter-both", ["a = a - b", "b = a * 2.0", "return a - b"]), ("tuple", ["z, w = a - b, b * 2.0", "return z - w"]),
+    ("tuple-swap", ["a, b = b, a", "return a - 2.0 * b"]), ("tuple-rotate", ["z = a + b", "z, w = b, z", "return w - 2.0 * z"]),
+    ("tuple-parameter-and-local", ["z, a = a, b", "return z - 2.0 * a"]), ("tuple-parenthesised", ["(z, w) = (a - b, a)", "return z * w"]),
+    ("tuple-from-call", ["z, w = divmod(a, b)", "return z - w"]), ("tuple-starred", ["z, *w = a, b", "return z - b"]), ("list-target", ["[z, w] = [a, b]", "return z - 2.0 * w"]),
+    ("chained", ["z = w = b * 2.0", "return w - z + a"]), ("chained-rebinds", ["w = a", "z = w = b * 2.0", "return w - z + a"]),
+    ("augmented-add", ["z = a", "z += b", "return z * 2.0"]), ("augmented-mul-parameter", ["a *= b", "return a - b"]), ("annotated", ["z: float = a - b", "return z * 2.0"]),
+    ("annotated-rebinds", ["z = a", "z: float = b * 2.0", "return z - a"]), ("annotation-only", ["z: float", "z = a - b", "return z"]),
+    ("for", ["z = a", "for _k in range(2):", "    z = z + b", "return z"]), ("while", ["z = a", "while z < b:", "    z = z + 1.0", "return z"]),
+    ("try", ["try:", "    return a / b", "except ZeroDivisionError:", "    return 0.0"]), ("with", ["with np.errstate(all='ignore'):", "    z = a - b", "return z"]),
+    ("pass", ["pass", "return a - b"]), ("docstring", ["'rate law'", "return a - b"]), ("assert", ["assert a > b", "return a - b"]), ("expression-statement", ["a - b", "return a * b"]),
+    ("del", ["z = a - b", "w = z", "del w", "return z"]), ("global", ["global K", "return K * a - b"]), ("subscript-target", ["z = [a, b]", "z[0] = b", "return z[0] - a"]),
+    ("local-import", ["import math", "return math.pi * a - b"]), ("local-from-import-float", ["from math import tau", "return tau * a - b"]),
+    ("local-from-import-fn", ["from c06h import ba", "return ba(a, b)"]), ("local-from-import-module", ["from c06pkg import sub", "return sub.ratio(a, b)"]),
+    ("local-import-shadows-parameter-name", ["from c06pkg.sub import C3", "C3 = a - b", "return C3 * 2.0"]),
+    ("return-none", ["if a > b:", "    return a", "return"]), ("nested-def", ["def inner(q):", "    return q - b", "return inner(a)"]),
+    ("match", ["match a > b:", "    case True:", "        return a", "    case _:", "        return b"]),
+]
+
+
 def _nparams(text: str) -> tuple:
     names = {n.id for n in ast.walk(ast.parse(text)) if isinstance(n, ast.Name)}
     return ("a", "b", "c") if "c" in names else ("a", "b")
@@ -660,6 +688,9 @@ def e1_cases():
             body = mk(e)
             params = _nparams("\n".join(["def f():"] + [" " + b for b in body]))
             out.append((f"value:{tag}:{cname}", params, body, renamings(len(params), cname == "return")))
+    for tag, body in STMT_CASES:
+        out.append((f"stmt:{tag}:straight", ("a", "b"), body, renamings(2, False)))
+        out.append((f"stmt:{tag}:in-branch", ("a", "b"), ["if a > 1.0:", *["    " + ln for ln in body], "return b - a * 2.0"], renamings(2, False)))
     for cname, params, body in SHADOW_CASES:
         out.append((f"value:name-equal-to-module-float:{cname}", params, body, renamings(2, True)))
     for tag, c in COND_LEAVES:
@@ -887,12 +918,12 @@ def e2_cases(tier: str):
         for sk in four1:
             add(sk, ("plain", "eq", "outside", "three", "tuple"))
         for i, sk in enumerate(four2):
-            add(sk, ("plain", ("outside", "eq", "tuple")[i % 3]))
+            add(sk, (("plain", "outside", "plain", "eq", "plain", "tuple")[i % 6],))
         five1 = [b for b in sk_blocks(5, 1, 3) if sk_has_return(b)]
         for sk in five1:
             add(sk, ("plain", "three"))
         bound = (f"all {len(small)} statement skeletons with <= 3 leaf statements (nesting <= 2, blocks <= 3 statements, <= 2 elif, with a return) x 12 fillings; "
-                 f"all {len(four1) + len(four2)} skeletons with 4 leaves x 2-5 fillings; all {len(five1)} skeletons with 5 leaves and nesting <= 1 x 2 fillings; 4 renamings each")
+                 f"all {len(four1) + len(four2)} skeletons with 4 leaves x 1 filling ({len(four1)} with nesting <= 1 x 5); all {len(five1)} skeletons with 5 leaves and nesting <= 1 x 2 fillings; 4 renamings each")
     return cases, bound
 
 
@@ -1048,6 +1079,17 @@ def body_features(src: str) -> list[str]:
     return sorted(feats)
 
 
+# one class per body: the first feature present, control structure before statement forms; a chain
+# without else followed by code (translated correctly by the original translator when its branches
+# return) comes last so that it is a class of its own
+CLASS_ORDER = ("binding-inside-branch", "nested-if-without-else", "code-after-if-else", "statement-outside-subset", "chained-assignment",
+               "tuple-assignment-reads-its-own-targets", "equality-test", "code-after-if-without-else")
+
+
+def body_class(feats) -> str | None:
+    return next((c for c in CLASS_ORDER if c in feats), None)
+
+
 def renaming_class(params, ren) -> str:
     if len(set(ren)) < len(ren):
         return "one-model-name-for-two-arguments"
@@ -1064,12 +1106,11 @@ def failure_key(tag: str, src: str, params, f: dict) -> str:
     if f["renaming"] is not None:
         return f"bounded:renamed-arguments-change-the-value:{renaming_class(params, f['renaming'])}"
     sym = f["symptom"]
-    if part[0] in ("value", "test"):
+    if part[0] in ("value", "test", "stmt"):
         return f"bounded:{sym}:{part[0]}:{part[1]}"
     if part[0] == "table":
         return f"bounded:{sym}:table:{part[1]}:{part[2]}"
-    feats = body_features(src)
-    return f"bounded:{sym}:body:{'+'.join(feats) if feats else 'plain:' + part[1]}"
+    return f"bounded:{sym}:body:{body_class(body_features(src)) or 'plain:' + part[1]}"
 
 
 # ---------------------------------------------------------------------------
@@ -1243,7 +1284,7 @@ def run(ctx: Ctx) -> None:
         ctx.extra.setdefault("translator_raised_instead_of_returning_None", {}).update({k: v for k, v in sorted(raised.items())[:8]})
         names = {"e1": "C06-leaves", "e2": "C06-statement-skeletons", "e3": "C06-tables"}
         bounds = {
-            "e1": (f"{len(VALUE_LEAVES)} value expressions x {len(VALUE_CONTEXTS)} statement contexts + {len(COND_LEAVES)} tests x {len(COND_CONTEXTS)} contexts + {len(SHADOW_CASES)} bodies whose parameters/locals are named like module level floats "
+            "e1": (f"{len(VALUE_LEAVES)} value expressions x {len(VALUE_CONTEXTS)} statement contexts + {len(COND_LEAVES)} tests x {len(COND_CONTEXTS)} contexts + {len(STMT_CASES)} statement forms x 2 contexts + {len(SHADOW_CASES)} bodies whose parameters/locals are named like module level floats "
                    f"x all renamings of the model arguments in the first context ({len(REN2)} for two parameters, {len(REN3)} for three), {len(REN2_FEW)}-{len(REN3_FEW)} renamings in the other contexts"),
             "e2": e2_bound,
             "e3": (f"{n_entries} KNOWN_FNS entries x literal argument tuples on which Python defines a value ({len(T_UN)} floats, {len(T_INT_UN)} ints, "
